@@ -260,16 +260,27 @@ CLAIMED["C11"] = dict(
 )
 CLAIMED["C07"] = dict(
     engine="E-modify",
-    text="Lean theorems about the scope specification (it is the property): an invocation happens for exactly the "
-    "(registration, block) pairs where the scope designates the block, at the offset its position prescribes; that "
-    "offset is 0 or the end of the non-terminator instructions, an instruction boundary not after the terminator; "
-    "inside a block invocations are ordered by offset and at one offset by registration order (also across "
-    "passes). Oracle: instrumented patches with a unique marker per invocation registered through every scope "
-    "kind, position and function filter on generated modules, in one context or two PassManager passes; the "
-    "recorded InsertionContexts against the specification's invocation list, every marker exactly once in the "
-    "output, the output bytes against the listing specification. Partial: the resolution code itself "
-    "(scopes.py / modifications_for_block / resolve_offsets) is tied by the oracle, there is no separate model.",
-    technique="Lean 4 proof (properties of the executable specification) + executable-spec oracle on the real invocations and output bytes",
+    text="Lean theorems about a model of the resolution code (Model/Rewrite/Store.lean follows _ModificationStore.add / "
+    "modifications_for_block / resolve_offsets and the scope classes of scopes.py): for every list of registrations, "
+    "in any order, and every block the store hands out exactly the registrations whose scope designates the block, "
+    "each as often as it was registered (store_hands_out_exactly_the_designated, store_count); resolve_offsets "
+    "answers with a permutation of what it was given, each at the first potential offset of its scope (0, or the end "
+    "of the non-terminator instructions for EXIT), in listing order - offset, insertions before the replacement or "
+    "deletion that starts there, registration id - and pairwise non-overlapping (resolve_offsets_answer, "
+    "scope_offset); it refuses a request list exactly when two requests overlap in that order "
+    "(resolve_offsets_accepts_non_overlapping, resolve_offsets_refuses_overlap). Lean theorems about the scope "
+    "specification (Spec/Scopes.lean): an invocation happens for exactly the (registration, block) pairs where the "
+    "scope designates the block, at the offset its position prescribes, ordered by offset and registration. Tie: the "
+    "real _ModificationStore and scope objects against the compiled model on every block of generated modules "
+    "(scope registrations, explicit requests with replacement lengths that may overlap, scopes on data blocks, "
+    "shuffled ids), what gtirb-functions and capstone report being the model's parameters. Oracle: the real answers "
+    "judged directly (nothing dropped or doubled, listing order, no overlap accepted, no non-overlapping list "
+    "refused); instrumented patches with a unique marker per invocation registered through every scope kind, "
+    "position and function filter, in one context or two PassManager passes; the recorded InsertionContexts against "
+    "the specification's invocation list, every marker exactly once in the output, the output bytes against the "
+    "listing specification. Partial: the walk of apply() over the blocks and _invoke_patch are tied by the oracle "
+    "only; pattern_match's regular expressions are modelled as prefix tests.",
+    technique="Lean 4 proof (model of the modification store and scopes: permutation, sortedness, refusal iff overlap; properties of the executable specification) + differential correspondence of the real store with the model + executable-spec oracle on the real invocations and output bytes",
     design="DESIGN.md#c07",
 )
 CLAIMED["C19"] = dict(
